@@ -4,14 +4,15 @@ CONSTANTS
   Accounts <- MAccounts
   Collector = "coll"
   DefaultLimit = 8
-  DiffVals <- MDiffs
-  PriceVals = {1, 2, 3}
-  LimitVals = {0, 2, 5}
+  DiffVals <- MDiffsQ
+  ParamVals <- MParams
+  PriceVals = {1, 2}
+  LimitVals = {0, 3}
   MaxLen = 3
   InitBal = 10
 INIT Init
 NEXT Next
 VIEW view
-INVARIANTS DepositBacked NonNegative FreeAllRefundsAll
+INVARIANTS DepositBacked NonNegative FreeAllRefundsAll StorageIsSum
 PROPERTIES TooSmallLimitFails ChargedAtMsgStartPrice Conserved
 CHECK_DEADLOCK FALSE
